@@ -467,6 +467,62 @@ def _name_index(t):
 
 
 # ----------------------------------------------------------------------------------------------
+def preprocess_flow(rep, ex: Explorer, cls=CI):
+    """C.preprocess-flow: what compile_constraint / translate / _inference read from the state is what preprocessing
+    wrote: all three CNF families of the base, then the minima under the caller's deadline, then the constraint system
+    of the base, kept in the epistemic state (the object that survives between calls)."""
+    from .mcsops import summary_b2c
+
+    qual = f"{cls}._preprocess_belief_base"
+    site = fn_label(ex.prog, qual)
+
+    def cc(I, fi, args, kwargs, node):
+        I.log("cinf.compile", node, args=tuple(args[1:]), kwargs=dict(kwargs))
+        return Const(None)
+
+    def tr(I, fi, args, kwargs, node):
+        I.log("cinf.translate", node, args=tuple(args[1:]))
+        return I.alloc(HList([("sym", "BASECSP")]))
+
+    summ = _summ()
+    summ["inference.tseitin_transformation.TseitinTransformation.belief_base_to_cnf"] = summary_b2c
+    summ[f"{cls}.compile_constraint"] = cc
+    summ[f"{cls}.translate"] = tr
+
+    def setup(I):
+        s, es = _mk(I, cls)
+        return [s, Sym("weakly", "bool"), Sym("deadline")], {}
+
+    paths = ex.run(qual, setup, summaries=summ, key="cinf-pre")
+    n = 0
+    for p in paths:
+        if p.outcome[0] != "return":
+            continue
+        n += 1
+        evs = [ev for ev, Q in iter_events(p.events)]
+        b2c = [i for i, e in enumerate(evs) if e.kind == "b2c"]
+        comp = [i for i, e in enumerate(evs) if e.kind == "cinf.compile"]
+        tra = [i for i, e in enumerate(evs) if e.kind == "cinf.translate"]
+        okc = len(b2c) == 1 and len(evs[b2c[0]].args) >= 3 and all(isinstance(a, Const) and a.value is True for a in evs[b2c[0]].args[:3])
+        rep.check(okc, "CNF.roles", site, "slots filled", "preprocessing fills the verification, falsification and non-falsification CNF slots that the compilation of the minima reads",
+                  extracted=repr(evs[b2c[0]].args) if b2c else "no call", required="belief_base_to_cnf(True, True, True)", function=site)
+        oko = len(comp) == 1 and len(tra) == 1 and bool(b2c) and b2c[0] < comp[0] < tra[0]
+        rep.check(oko, "C.preprocess-flow", site, "order", "CNFs, then the minima, then the constraint system of the base (each step reads what the one before wrote)",
+                  extracted=f"cnf at {b2c}, minima at {comp}, constraints at {tra}", required="cnf < minima < constraints, once each", function=site)
+        es = None
+        for oid, o in p.state.heap.items():
+            if isinstance(o, HDict) and "vMin" in o.entries and "belief_base" in o.entries:
+                es = o
+        val = es.entries.get("base_csp") if es is not None else None
+        vw = p.state.heap.get(val.oid) if isinstance(val, Ref) else None
+        oks = isinstance(vw, HList) and vw.segs == [("sym", "BASECSP")]
+        rep.check(oks, "C.preprocess-flow", site, "base constraints kept", "the constraint system of the base is stored in the epistemic state, where the answering step reads it",
+                  extracted=repr(val)[:80], required="translate() in state['base_csp']", function=site)
+    rep.floor("c-inference preprocessing paths", n, 1)
+    return {"cinf_preprocess_paths": n}
+
+
+# ----------------------------------------------------------------------------------------------
 def answer(rep, ex: Explorer, cls=CI, state_rule=True):
     """C.relations (answer = ¬SAT(base ∪ query)), C.selffulfilling on `_inference`."""
     qual = f"{cls}._inference"
